@@ -26,6 +26,27 @@ CHECKS = {
         note="Trusted: serde_yaml's parser (YAML 1.2 core schema). Known finding: synthesised operationId collisions.",
         design="5/C03",
     ),
+    "C04": dict(
+        category="exploration",
+        technique="runtime monitoring: crash monitor (per-entry-point panic capture, child-process abort/hang attribution) over hostile text workloads through parse, the playground entry point and the language server cycle; sanitizer stages (ASan/Miri/memcheck) and process-level slices in the thorough tier",
+        text="All token sequences up to length 3 over the full token alphabet and up to 5/6 over a reduced one (exhaustive), nesting families to depth 200, generated programs, token/byte mutants and arbitrary Unicode are fed to oal_syntax::parse, oal_wasm::compile and the LSP open/load/eval/diagnostics cycle in worker processes; each must answer with a result or diagnostics.",
+        note="Trusted: the worker pool's crash attribution. Texts are sampled except the enumerated token-sequence spaces.",
+        design="5/C04",
+    ),
+    "C11": dict(
+        category="exploration",
+        technique="runtime monitoring: structural invariant walkers over tokenizer and parser outputs (token tiling, values vs slices, tree leaves vs tokens, node span hull) and over every span carried by syntax/compiler errors",
+        text="For every text of the workload the token spans must tile the text outside lexical-error spans, token values must be what their slices denote, the tree's leaves must be the non-trivia tokens of the parsed prefix in order, node spans must be the hull of their leaves, and error spans must lie inside their own module's text on char boundaries.",
+        note="Trusted: the walker's own hull computation; tokenizer assumed context-free longest-match for the re-lex check.",
+        design="5/C11",
+    ),
+    "C12": dict(
+        category="exploration",
+        technique="runtime monitoring: differential monitor (memoising vs non-memoising parser on the same token list, structural dump comparison) and a logical work-counter monitor through the cfg-guarded counter/read-limit hooks",
+        text="Each text is parsed with and without the memo table and the results (ok/err, stop cursor, error span, full tree dump) compared; the cached parser's token-read counter must stay under 100*n+100 and grow by at most 2.5x when nesting depth doubles. No wall-clock time is involved.",
+        note="Uncached parses over 200k token reads are cut off by the read-limit hook and counted as infeasible, not as verdicts. Linearity is a measured bound over the families driven, not a complexity proof.",
+        design="5/C12",
+    ),
     "C08": dict(
         category="exploration",
         technique="runtime monitoring: reference-model monitor (generator's binding table vs definition() of every Variable node after the real resolver ran) + document comparison for shadowing programs + located-error monitor for unbound/duplicate names",
@@ -72,7 +93,7 @@ def main():
             "guard": "cargo feature `verif` on oal-model, oal-compiler, oal-client",
             "enable": "the harness crate /verif/harness depends on /repo's crates by path with features = [\"verif\"]; ./check rebuilds it from /repo's working tree",
             "baseline_off_cmd": "cd /repo && cargo test --workspace --no-fail-fast --offline",
-            "source_commits": ["68268e8", "05ae25e", "b361f91"],
+            "source_commits": ["68268e8", "05ae25e", "b361f91", "4452cf3"],
             "add_only": True,
         },
         "engines": [{
